@@ -509,7 +509,7 @@ pub fn p_macro_def(m: &MacroDef, prog: &Program) -> String {
       }
       p_items(&m.body, prog, &mut env, true)
    };
-   format!("macro {}({params}) {{ {body} }}", m.name)
+   format!("macro {}({params}) {{ {body}{} }}", m.name, if m.trailing_comma { "," } else { "" })
 }
 
 #[derive(Clone, Copy, Debug, PartialEq, Eq, serde::Serialize, serde::Deserialize)]
